@@ -32,6 +32,16 @@ func C13(c *vlib.Ctx) {
 	}
 	w := storecheck.DefaultWeights()
 	w[storecheck.KRecordAtt], w[storecheck.KListAtt], w[storecheck.KTrendCap], w[storecheck.KTrendList] = 2, 2, 1, 1
+	// long history: bursts of short-lived messages between the generated operations
+	// (order-list compaction, id counters, free pages), unlimited default store
+	wl := storecheck.DefaultWeights()
+	wl[storecheck.KChurn], wl[storecheck.KEnqueueBatch] = 5, 3
+	for s := 0; s < c.N(3, 60); s++ {
+		r := vlib.Derive(c.Seed, "C13long", s)
+		g := storecheck.GenCfg{NIDs: r.Range(6, 24), Routes: stdRoutes[:2], Targets: stdTargets[:2], ForcedOnly: true, PaddedLeases: true, Weights: wl, Churn: 1050}
+		storecheck.RunSequence(c, r, storecheck.RunCfg{Backends: []string{"memory", "sqlite"}, Gen: g, Steps: r.Range(60, 90),
+			Label: fmt.Sprintf("C13/long/seq%d", s), Differential: true, Props: map[string]bool{"C13": true}})
+	}
 	for ci, sc := range cfgs {
 		for s := 0; s < seqs; s++ {
 			r := vlib.Derive(c.Seed, "C13", ci, s)
